@@ -29,6 +29,8 @@ TECHNIQUE = 'metamorphic + idempotence + model-based indentation oracles over Hy
 
 
 def fmt(src, width):
+    from vlib import prelude
+    prelude.lua()
     from pico8.lua import lua as plua
     l = plua.Lua.from_lines([src], version=8)
     return b''.join(l.to_lines(writer_cls=plua.LuaFormatterWriter, writer_args={'indentwidth': width}))
